@@ -60,6 +60,7 @@ func c14pdRun(r *vfRand, c *c14pdCase, tr *zzc14.Trace) (*zzc14.Plan, string) {
 		// provider.New of the second (WAN) DHT fails after the LAN provider was started
 		dopts = append(dopts, ddht.WanDHTOption(dht.BucketSize(0)))
 	}
+	gate.Open.Store(true) // constructors run on the driver's goroutine
 	d, derr := ddht.New(h, dopts...)
 	if derr != nil {
 		panic("c14: dual DHT: " + derr.Error())
@@ -102,6 +103,7 @@ func c14pdRun(r *vfRand, c *c14pdCase, tr *zzc14.Trace) (*zzc14.Plan, string) {
 			p, err = New(d, opts...)
 		}
 	}()
+	gate.Open.Store(false)
 	final := func() {
 		if extKs != nil {
 			_ = extKs.Close()
